@@ -153,6 +153,8 @@ class GinProp(Prop):
         fd = fork_diff(case, io, self.fields, self.compare_results, fmt=op_str)
         if fd:
             ow = [fd] + ow
+        if io.get("resume_exc"):
+            ow = ["the constructor refused the fields of a game in progress: " + io["resume_exc"]] + ow
         key, tags = self.key_tags(case, evs)
         if io.get("fork"):
             tags = list(tags) + ["forked"]
